@@ -21,7 +21,7 @@ def register(reg):
     def variant(tag, maskspec, bw, thr, extra_pre, clause_mask, clause_border, clause_thr, muts):
         reg.add(Contract(
             target=F, props=['C14'], kind='function', tag=tag,
-            block=('peak_goodmask', 'peak_goodmask'),
+            block=('peak_goodmask', 'peak_goodmask'), block_like='data == data_max',
             params={'data': img, 'data_max': img, 'nan_mask': ('arr', 2, 'bool', 'nonempty'),
                     'mask': maskspec, 'border_width': bw, 'threshold': thr},
             requires=['data_max.shape == data.shape', 'nan_mask.shape == data.shape'] + extra_pre,
